@@ -193,4 +193,60 @@ theorem tdiv_inRange {t : CTy} (hw : 2 ≤ t.w) {a b : Int} (ha : t.InRange a) (
       omega
 
 
+/-! ### The `OverflowError` guard of `//`, both variants -/
+
+/-- `__PYX_MIN(T)` is the minimum of the type (width `≥ 2`, so that `1 << (w-2)` is defined). -/
+theorem pyxMin_eq_min {t : CTy} (hw : 2 ≤ t.w) : pyxMin t = t.min := by
+  unfold pyxMin CTy.min
+  cases t.signed
+  · simp
+  · have := two_pow_split (w := t.w - 1) (by omega)
+    have e : t.w - 1 - 1 = t.w - 2 := by omega
+    rw [e] at this
+    simp only [if_true]; omega
+
+/-- Whenever the pair is not `(MIN, -1)` the guard does not fire — old and new variant. -/
+theorem overflowGuard_false {c : Cfg} (hs : c.ty.signed = true) (hw : 2 ≤ c.ty.w) {a b : Int}
+    (ha : c.ty.InRange a) (hne : ¬ (a = c.ty.min ∧ b = -1)) : c.overflowGuard a b = false := by
+  by_cases hb1 : b = -1
+  · have hna : a ≠ c.ty.min := fun h => hne ⟨h, hb1⟩
+    cases hga : c.guardAllWidths
+    · simp only [Cfg.overflowGuard, hga, Bool.false_eq_true, if_false, hs]
+      by_cases hwl : c.ty.w = c.wl
+      · have hai := (inRange_signed hs a).1 ha
+        rw [min_signed hs] at hna
+        rw [hwl] at hai hna
+        have : negWouldOverflow c.wl a = false := by
+          cases hh : negWouldOverflow c.wl a
+          · rfl
+          · exact absurd ((negWouldOverflow_iff (by omega) hai.1 hai.2).1 hh) hna
+        simp [this]
+      · simp [hwl]
+    · simp [Cfg.overflowGuard, hga, pyxMin_eq_min hw, hna]
+  · cases hga : c.guardAllWidths <;> simp [Cfg.overflowGuard, hga, hb1]
+
+/-- New variant: `(MIN, -1)` is caught for every signed width, run-time and constant divisor. -/
+theorem overflowGuard_all_min_neg_one {c : Cfg} (hga : c.guardAllWidths = true) (hs : c.ty.signed = true)
+    (hw : 2 ≤ c.ty.w) (hcd : c.cdivision = false) : c.overflowGuard c.ty.min (-1) = true := by
+  simp [Cfg.overflowGuard, Cfg.minus1Check, hga, hs, hcd, pyxMin_eq_min hw]
+
+/-- Old variant: `(MIN, -1)` is caught only for types as wide as `long` with a run-time divisor. -/
+theorem overflowGuard_old_min_neg_one {c : Cfg} (hga : c.guardAllWidths = false) (hs : c.ty.signed = true)
+    (hw : 2 ≤ c.ty.w) (hcd : c.cdivision = false) :
+    c.overflowGuard c.ty.min (-1) = (decide (c.ty.w = c.wl) && !c.bConst) := by
+  by_cases hwl : c.ty.w = c.wl
+  · have hn : negWouldOverflow c.wl c.ty.min = true := by
+      rw [min_signed hs, hwl]
+      exact (negWouldOverflow_iff (by omega) (by omega) (by have := two_pow_pos (c.wl - 1); omega)).2 rfl
+    cases hbc : c.bConst <;> simp [Cfg.overflowGuard, Cfg.zeroCheck, hga, hs, hcd, hwl, hn, hbc]
+  · simp [Cfg.overflowGuard, hga, hwl]
+
+
+theorem overflowGuard_unsigned {c : Cfg} (hs : c.ty.signed = false) (a b : Int) : c.overflowGuard a b = false := by
+  cases hga : c.guardAllWidths <;> simp [Cfg.overflowGuard, Cfg.minus1Check, hga, hs]
+
+theorem overflowGuard_cdivision {c : Cfg} (hcd : c.cdivision = true) (a b : Int) : c.overflowGuard a b = false := by
+  cases hga : c.guardAllWidths <;> simp [Cfg.overflowGuard, Cfg.minus1Check, Cfg.zeroCheck, hga, hcd]
+
+
 end CyVerif.C03
